@@ -122,6 +122,9 @@ fn main() {
         AI::Decl { name: 0, payload: 0 },
         AI::Decl { name: 0, payload: 1 },
         AI::Decl { name: 1, payload: 0 },
+        AI::Decl { name: 0, payload: 4 },
+        AI::MeasureCalib { sig: 0, payload: 0 },
+        AI::MeasureCalib { sig: 3, payload: 0 },
         AI::Calib { sig: 0, payload: 0 },
         AI::Calib { sig: 0, payload: 1 },
         AI::Extern { name: None, payload: 1 },
@@ -146,7 +149,7 @@ fn main() {
         small.extend(next.iter().cloned());
         frontier = next;
     }
-    let stride = if args.thorough() { 1 } else { 5 };
+    let stride = if args.thorough() { 1 } else { 11 };
     let mut n_ex = 0u64;
     for (ia, sa) in small.iter().enumerate() {
         for (ib, sb) in small.iter().enumerate() {
@@ -180,8 +183,9 @@ fn main() {
     run.finish(
         "pairs (A, B) of instruction sequences; each program is Program::from_instructions of the \
          concretised sequence. Exhaustive part: all pairs of sequences of length <= 2 over an alphabet \
-         of 11 instructions with colliding DECLARE / DEFCAL / PRAGMA EXTERN / DEFFRAME keys (every \
-         fifth pair in the quick tier). Random part: all ordered pairs from a seeded pool of programs \
+         of 14 instructions with colliding DECLARE (incl. SHARING-only difference) / DEFCAL / DEFCAL \
+         MEASURE (incl. target-name-only difference) / PRAGMA EXTERN / DEFFRAME keys (every \
+         eleventh pair in the quick tier). Random part: all ordered pairs from a seeded pool of programs \
          with 2-4 definitions of every kind. Non-trivial = both operands non-empty and B rebinds a \
          key of A.",
         true,
